@@ -5,7 +5,7 @@
    the text of Codec.enc; definitions only, used to produce inputs for the implementation's decoder
    (the decoder-side theorems are C12_unknown_form / C12_forms_agree). *)
 From Coq Require Import NArith ZArith List Bool.
-From Desert Require Import Outcome IO Types Codec MiscProofs.
+From Desert Require Import Outcome IO Types Codec.
 Import ListNotations.
 Open Scope N_scope.
 
